@@ -875,3 +875,141 @@ func govcWriterBatch(t *testing.T, p *govcParams) govcOutcome {
 	}
 	return govcOutcome{detail: "every batch shape (2..40 messages, one duplicated page) kept the per-page write order"}
 }
+
+// ---------------------------------------------------------------------------
+// scenario allocrollback: run write transactions with different allocation /
+// free patterns and abort them; the allocator must be exactly as before the
+// transaction began and later allocations must hand out distinct, unused pages.
+// ---------------------------------------------------------------------------
+
+func init() { govcScenarios["allocrollback"] = govcAllocRollback }
+
+func govcAllocSnapshot(f *File) string {
+	a := &f.allocator
+	return fmt.Sprintf("data(end=%d avail=%d regions=%v) meta(end=%d avail=%d regions=%v) metaTotal=%d",
+		a.data.endMarker, a.data.freelist.avail, a.data.freelist.regions, a.meta.endMarker, a.meta.freelist.avail, a.meta.freelist.regions, a.metaTotal)
+}
+
+func govcAllocRollback(t *testing.T, p *govcParams) govcOutcome {
+	type body struct {
+		name string
+		run  func(tx *Tx) error
+	}
+	bodies := []body{
+		{"alloc 3 from end, free the first", func(tx *Tx) error {
+			ps, err := tx.AllocN(3)
+			if err != nil {
+				return err
+			}
+			return ps[0].Free()
+		}},
+		{"alloc 3 from end, free the middle", func(tx *Tx) error {
+			ps, err := tx.AllocN(3)
+			if err != nil {
+				return err
+			}
+			return ps[1].Free()
+		}},
+		{"alloc 1 from end, free it, alloc again", func(tx *Tx) error {
+			pg, err := tx.Alloc()
+			if err != nil {
+				return err
+			}
+			if err := pg.Free(); err != nil {
+				return err
+			}
+			_, err = tx.Alloc()
+			return err
+		}},
+		{"alloc 2 (free list first), free both", func(tx *Tx) error {
+			ps, err := tx.AllocN(2)
+			if err != nil {
+				return err
+			}
+			for _, pg := range ps {
+				if err := pg.Free(); err != nil {
+					return err
+				}
+			}
+			return nil
+		}},
+		{"alloc 4, free the last two", func(tx *Tx) error {
+			ps, err := tx.AllocN(4)
+			if err != nil {
+				return err
+			}
+			ps[3].Free()
+			return ps[2].Free()
+		}},
+	}
+	for _, unbounded := range []bool{false, true} {
+		for _, withFreeList := range []bool{false, true} {
+			for _, bd := range bodies {
+				opts := Options{MaxSize: 1 << 20, PageSize: 1024}
+				if unbounded {
+					opts = Options{PageSize: 1024, Flags: FlagUnboundMaxSize}
+				}
+				f, _, err := govcOpen(opts)
+				if err != nil {
+					return govcOutcome{skip: "open failed: " + err.Error()}
+				}
+				// committed prefix: 4 live pages, optionally two of them freed again (free list not empty)
+				tx, _ := f.Begin()
+				ps, err := tx.AllocN(4)
+				if err != nil {
+					return govcOutcome{skip: "setup alloc failed: " + err.Error()}
+				}
+				for _, pg := range ps {
+					pg.SetBytes([]byte{1})
+				}
+				tx.SetRoot(ps[0].ID())
+				if err := tx.Commit(); err != nil {
+					return govcOutcome{skip: "setup commit failed: " + err.Error()}
+				}
+				live := map[PageID]bool{ps[0].ID(): true, ps[1].ID(): true, ps[2].ID(): true, ps[3].ID(): true}
+				if withFreeList {
+					tx, _ := f.Begin()
+					for _, pg := range ps[1:3] {
+						q, _ := tx.Page(pg.ID())
+						q.Free()
+						delete(live, pg.ID())
+					}
+					if err := tx.Commit(); err != nil {
+						return govcOutcome{skip: "setup free failed: " + err.Error()}
+					}
+				}
+				before := govcAllocSnapshot(f)
+				atx, err := f.Begin()
+				if err != nil {
+					return govcOutcome{skip: "begin failed: " + err.Error()}
+				}
+				berr := bd.run(atx)
+				atx.Rollback()
+				after := govcAllocSnapshot(f)
+				cfg := fmt.Sprintf("[unbounded=%v free-list=%v] aborted tx body %q (body err=%v)", unbounded, withFreeList, bd.name, berr)
+				if before != after {
+					return govcOutcome{reproduced: true, detail: fmt.Sprintf("%s left a trace: allocator before %s, after rollback %s", cfg, before, after)}
+				}
+				// later allocations: distinct, never a live page
+				ntx, _ := f.Begin()
+				got, err := ntx.AllocN(6)
+				if err == nil {
+					seen := map[PageID]bool{}
+					for _, pg := range got {
+						if seen[pg.ID()] || live[pg.ID()] || pg.ID() < 2 {
+							ids := []PageID{}
+							for _, x := range got {
+								ids = append(ids, x.ID())
+							}
+							return govcOutcome{reproduced: true, detail: fmt.Sprintf("%s: the next AllocN(6) returned %v (duplicate or live page %d)", cfg, ids, pg.ID())}
+						}
+						seen[pg.ID()] = true
+					}
+				}
+				ntx.Rollback()
+				f.Close()
+			}
+		}
+	}
+	return govcOutcome{detail: "every aborted transaction body left the allocator exactly as before"}
+}
